@@ -47,6 +47,8 @@ EXPLANATION = (
     'the comparison core may compare sort-key sequences (`comparator([key(c) for c in a], [key(c) for c in b])`: keys in order, then the length). '
     'R3 also: an exit of version_compare_many without failed requirements reports success; R5 also: the condition range is reset between two branches of an if/elif chain; '
     'R7: the version_compare method answers with the verdict of version_compare_many (range membership returned as the verdict is a violation). '
+    'Round 9: also normalised - an index loop whose bound was hoisted into a local, `for T in map(f, xs)`, a callable picked first (`(f if c else g)(x)`), '
+    'a NamedTuple result read by field name (the (operator, version) pair), min()/max() as pure values; intersect may return the unchanged copy directly. '
     'NOT decided: (a) if-clause narrowing is applied whatever the condition does with the result of version_compare (`not ..`, `.. or true`): the narrowed range is then '
     'not the set of versions that run the block - in scope of the property, but evaluate_if cannot see it and a rule would have to prescribe a design; '
     '(b) int() of a digit run longer than the interpreter limit raises ValueError (not an order property). '
